@@ -6,7 +6,10 @@ One case = one history on generated diploid data with ground truth (error-free r
   -> `whatshap haplotagphase` U + tagged BAM + reference.
 Property oracle (Python): every variant haplotagphase phases that was unphased in U has V's haplotype order and V's
 phase set = the PS tag of the tagged reads covering it (variants covered by a tagged read that overlaps two phase sets of V
-are excluded, as in the property); every call phased in U is unchanged in the output.
+are excluded, as in the property); every call phased in U is unchanged in the output — U with already phased calls in every
+encoding VcfReader accepts (`forms`: phased GT with PS / without PS in the record / PS `.` / PS 0, mixed per record and sample, or
+HP next to an unphased GT; order agreeing or disagreeing with the reads' votes; own or foreign phase set), compared on haplotype
+order, phase-set value and (same encoding in and out) the text of GT/PS/HP, read from the text of the files.
 Correspondence: the output phase of every variant = Lean model (`c17.run`: computeVotes, bestCandidate, consensus,
 writer) fed with (b) the reads ReadSetReader delivers from the tagged BAM and (a) the ground-truth alleles with the tags haplotag wrote.
 """
@@ -21,13 +24,14 @@ MANIFEST = dict(
          "after the repair F19), tied to the working tree by complete CLI histories on generated data with ground truth",
     design_ref="DESIGN.md §5 C17",
     note="proof of the vote logic on the model + differential histories; F19 (haplotagphase re-derives or drops the phase of calls "
-         "that are already phased in its input) is reported until fixes/F19.patch is applied; allele detection, VCF/BAM I/O trusted",
+         "that are already phased in its input) is reported until fixes/F19.patch is applied; F138/F139 (a phased GT without a PS value is "
+         "re-phased from the votes [PS `.`] or comes back with PS 0 [no PS in the record]) until fixes/F138.patch; allele detection, VCF/BAM I/O trusted",
     technique="Lean 4 proof (per-position invariant of the vote loop) + differential CLI histories",
 )
 ASSUMPTIONS = [
     "diploid SNVs, biallelic and (half of the cases) multi-allelic with two ALT alleles (allele ids 0..2; haplotag and phase skip such records, haplotagphase reads them unless --no-mav), error-free reads, default thresholds (--gap-threshold 70, --cut-poly 10, no --only-indels)",
     "variants covered by a tagged read that overlaps two phase sets of V are excluded from the order/phase-set oracle, as the property does",
-    "input phase given as GT + PS (what `whatshap phase` writes by default)",
+    "phase of the VCF that tags the reads given as GT + PS (what `whatshap phase` writes by default); already phased calls in the input of haplotagphase in every encoding VcfReader accepts: phased GT with PS value / without PS in the record / PS `.` / PS 0 (mixed per record and per sample), or HP next to an unphased GT (whole file; VcfReader rejects HP mixed with phased GTs)",
 ]
 
 
@@ -47,6 +51,40 @@ def parse_vcf(path, samples):
                 key = key + ("dup",)      # second record at the same position (what is left of a split multi-allelic site)
             out[key] = (bool(gt[1]), tuple(gt[0]), ps if isinstance(ps, int) else None)
     return out
+
+
+def parse_vcf_text(path, samples):
+    """the same view as parse_vcf, taken from the text of the file (no VCF library: a call is what is written), plus
+    per call the text of its phase fields: ({key: (phased, alleles in haplotype order, phase set)}, {key: {GT, PS, HP}}).
+    A call is phased by a phased GT (phase set = PS value, None if the record has no PS or the value is missing) or by
+    an HP value next to an unphased GT (`7-2,7-1`: phase set 7, first GT allele on haplotype 2)."""
+    from harness.gen import sim
+    hdr, recs = sim.read_vcf_text(path)
+    smp = hdr[-1].split("\t")[9:]
+    sem, txt = {}, {}
+    for fixed, fmt, cols in recs:
+        keys = fmt.split(":")
+        for s, col in zip(smp, cols):
+            d = dict(zip(keys, col.split(":")))       # trailing fields may be dropped
+            gt = d.get("GT", ".")
+            if "." in gt.replace("|", "/").split("/"):
+                continue
+            key = (s, fixed[0], int(fixed[1]) - 1)
+            if key in sem:
+                key = key + ("dup",)
+            phased = "|" in gt
+            al = tuple(int(x) for x in gt.replace("|", "/").split("/"))
+            ps = d.get("PS", ".")
+            ps = int(ps) if ps.lstrip("-").isdigit() else None
+            hp = d.get("HP", ".")
+            if hp not in (".", "") and not phased:
+                f = [tuple(int(x) for x in e.split("-")) for e in hp.split(",")]
+                order = [h for _, h in f]
+                al = tuple(al[order.index(h)] for h in sorted(order))
+                phased, ps = True, f[0][0]
+            sem[key] = (phased, al, ps)
+            txt[key] = {"GT": gt, "PS": d.get("PS", "."), "HP": d.get("HP", "."), "pskey": "PS" in keys}
+    return sem, txt
 
 
 def load_tagged(path):
@@ -107,7 +145,8 @@ def run_case(ctx, case, d):
     hist = case["history"]
     samples = case["samples"]
     ctx.evaluated()
-    ctx.dist("history", f"{hist['source']}->haplotag->{hist['unphase']}{'(foreign)' if hist.get('foreign') else ''}->haplotagphase")
+    ctx.dist("history", f"{hist['source']}->haplotag->{hist['unphase']}{'(foreign)' if hist.get('foreign') else ''}"
+                        f"{'(hp)' if hist.get('u_enc') == 'hp' else ''}->haplotagphase{' --tag HP' if hist.get('tag') == 'HP' else ''}")
     ctx.dist("samples", len(samples))
     W = lambda args: sim.whatshap(args, ctx.overlay)
 
@@ -141,6 +180,9 @@ def run_case(ctx, case, d):
         open(Up, "w").write(so)
     elif hist["unphase"] == "none":
         shutil.copy(Vp, Up)
+    elif hist["unphase"] == "forms":
+        # already phased calls in every encoding the reader accepts (c17_gen.gen_forms)
+        c17_gen.write_vcf(case, Up, lambda s, c, i: c17_gen.form_call(case, s, c, i, V), forms=True)
     else:
         def call(s, c, i):
             pos = case["variants"][c][i]["pos"]
@@ -152,15 +194,20 @@ def run_case(ctx, case, d):
             a, b = sorted(al)
             return {"GT": f"{a}/{b}", "PS": "."}
         c17_gen.write_vcf(case, Up, call)
-    U = parse_vcf(Up, samples)
+    U, UT = parse_vcf_text(Up, samples)
+    Upy = parse_vcf(Up, samples)
+    if hist.get("u_enc") != "hp" and Upy != U:
+        raise AssertionError("harness: text view and pysam view of U differ")
     # ---- haplotagphase
     outp = os.path.join(d, "out.vcf")
     no_mav = bool(hist.get("no_mav"))
     ctx.dist("no_mav", no_mav)
-    rc, _, se, _ = W(["haplotagphase", "-o", outp, "--reference", fa, Up, tagged] + (["--no-mav"] if no_mav else []))
+    rc, _, se, _ = W(["haplotagphase", "-o", outp, "--reference", fa, Up, tagged] + (["--no-mav"] if no_mav else [])
+                     + (["--tag", hist["tag"]] if hist.get("tag") else []))
     if rc != 0:
         return bad("haplotagphase", se)
-    O = parse_vcf(outp, samples)
+    O, OT = parse_vcf_text(outp, samples)
+    out_enc = "hp" if hist.get("tag") == "HP" else "gt"
 
     # ---- tagged reads with ground truth
     trecs = load_tagged(tagged)
@@ -207,9 +254,8 @@ def run_case(ctx, case, d):
                                  key="no-mav-multi-changed")
                     continue
                 if u[0]:
-                    if o != u:
-                        ctx.fail(f"{c}:{v['pos'] + 1} {s}: already phased in the input of haplotagphase as {fmt(u)}, written as {fmt(o)}",
-                                 case, key="already-phased-altered")
+                    already_phased_clause(ctx, case, f"{c}:{v['pos'] + 1} {s}", u, o, UT[key], OT[key], out_enc,
+                                          (hist.get("forms") or {}).get(s, {}).get(c, [None] * len(vs))[i])
                     continue
                 if not o[0]:
                     if o[1] != u[1]:
@@ -249,9 +295,9 @@ def run_case(ctx, case, d):
                 if o is None or u is None:
                     ctx.fail(f"second record at {c}:{v['pos'] + 1} missing from the haplotagphase output", case, key="record-lost"); continue
                 if u[0]:
-                    if o != u:
-                        ctx.fail(f"{c}:{v['pos'] + 1} (second record) {s}: already phased in the input of haplotagphase as {fmt(u)}, "
-                                 f"written as {fmt(o)}", case, key="already-phased-altered-dup")
+                    if o != u or phase_text(UT[key]) != phase_text(OT[key]):
+                        ctx.fail(f"{c}:{v['pos'] + 1} (second record) {s}: already phased in the input of haplotagphase as {fmt(u)} "
+                                 f"[{call_text(UT[key])}], written as {fmt(o)} [{call_text(OT[key])}]", case, key="already-phased-altered-dup")
                 elif o[0]:
                     if vv is not None and vv[0] and (o[1] != vv[1] or o[2] != vv[2]):
                         ctx.fail(f"{c}:{v['pos'] + 1} (second record at this position) {s}: phased as {fmt(o)}, the VCF that tagged "
@@ -273,7 +319,8 @@ def run_case(ctx, case, d):
                 vars_req.append([v["pos"], sorted(u[1], reverse=True),
                                  ([u[2] if u[2] is not None else 0, list(u[1])] if u[0] else None),
                                  len(v["ref"]) == 1 and all(len(a) == 1 for a in (v.get("alts") or [v["alt"]]))])
-            impl = [[v["pos"], ([O[(s, c, v["pos"])][2], *O[(s, c, v["pos"])][1]] if O[(s, c, v["pos"])][0] else None)] for v in mvs]
+            # the model's block id of a phased call without a PS value is 0 (input and output alike)
+            impl = [[v["pos"], ([O[(s, c, v["pos"])][2] or 0, *O[(s, c, v["pos"])][1]] if O[(s, c, v["pos"])][0] else None)] for v in mvs]
             det, real_votes = detected_reads(fa, tagged, case, s, c, U)
             # ground truth reads: alleles from the generator, tags from the tagged BAM, assembled by the model of create_read_from_group
             order, groups, tags = [], {}, {}
@@ -310,8 +357,16 @@ def run_case(ctx, case, d):
                 if a_orig.get("out") == impl or (mode == "truth" and answers[("truth-orig-grouping", False)].get("out") == impl):
                     # the code as it is: already phased calls are re-derived from the votes / lose their phase (F19)
                     diff = [(x, y) for x, y in zip(impl, a_rep["out"]) if x != y]
+                    dk = (s, c, diff[0][0][0])
                     ctx.fail(f"{c} {s}: calls already phased in the input are not passed through: position {diff[0][0][0] + 1} written as "
-                             f"{diff[0][0][1]}, input phase {diff[0][1][1]} ({mode} reads)", case, key="already-phased-altered")
+                             f"{diff[0][0][1]}, input phase {diff[0][1][1]} ({mode} reads)", case,
+                             key="already-phased-altered" if U[dk][2] is not None else f"already-phased-{enc_of(U[dk], UT[dk])}-altered")
+                    continue
+                dpos = [x[0] for x, y in zip(impl, a_rep.get("out") or []) if x != y]
+                if dpos and all(U[(s, c, p)][0] and O.get((s, c, p)) != U[(s, c, p)] for p in dpos):
+                    # model (already phased calls pass through) and output differ only at already phased calls that were
+                    # altered: reported by the already-phased clause above under its specific key
+                    ctx.observe("output differs from the pass-through model only at already phased calls reported as altered")
                     continue
                 if mode == "detected":
                     ctx.disagree("c17.run/detected-reads", {"case": case, "chrom": c, "sample": s}, impl, a_rep)
@@ -327,6 +382,53 @@ def run_case(ctx, case, d):
     if len(ctx.samples) < 2:
         ctx.sample({"history": hist["source"] + "/" + hist["unphase"], "n_variants": sum(len(x) for x in case["variants"].values()),
                     "newly_phased_with_V_order": n_new, "phase_sets": sorted(str(x) for x in n_sets)[:6]})
+
+
+FORM_TEXT = {"ps": "phased GT with PS", "nokey": "phased GT, no PS in the record", "dot": "phased GT, PS missing", "zero": "phased GT, PS 0",
+             "hp": "HP next to an unphased GT"}
+
+
+def enc_of(u, ut):
+    """encoding of an already phased call, from its text"""
+    if ut["HP"] not in (".", "") and "|" not in ut["GT"]:
+        return "hp"
+    if u[2] is None:
+        return "dot" if ut["pskey"] else "nokey"
+    return "zero" if u[2] == 0 else "ps"
+
+
+def phase_text(t):
+    """the phase fields of a call as text; a field that is not in the record and a missing value are the same thing"""
+    return (t["GT"], t["PS"], t["HP"])
+
+
+def call_text(t):
+    return f"GT={t['GT']} PS={t['PS']}" + (f" HP={t['HP']}" if t["HP"] != "." else "")
+
+
+def already_phased_clause(ctx, case, where, u, o, ut, ot, out_enc, form):
+    """'variants that were already phased in its input are never altered': haplotype order and phase-set value of the
+    call, whatever its encoding.  u / o: (phased, alleles in haplotype order, phase set) in input / output; ut / ot: the
+    text of GT, PS, HP.  Keys: `already-phased-altered` order changed or phase lost or a phase set VALUE replaced by
+    another; for a phased GT without a PS value (<enc> = `nokey`: no PS in the record, `dot`: PS `.`):
+    `already-phased-<enc>-altered` order changed / phase lost, `already-phased-<enc>-set-invented` same order but it
+    comes back with a PS value it never had;
+    `already-phased-text` same order and set but the text of GT/PS/HP differs although input and output use the same
+    encoding (an HP-encoded call written by `--tag PS` legitimately changes its encoding, F65)."""
+    enc = enc_of(u, ut)
+    ctx.dist("already_phased_form", f"{enc}/{'agree' if (form or {}).get('agree', True) else 'disagree'}")
+    what = f"{where}: already phased in the input of haplotagphase ({FORM_TEXT.get(enc, enc)}) as {fmt(u)} [{call_text(ut)}], written as {fmt(o)} [{call_text(ot)}]"
+    nops = u[2] is None
+    if not o[0] or o[1] != u[1] or o[2] != u[2]:
+        ctx.dist("already_phased_altered_form", f"{enc}/{'order' if o[1] != u[1] else 'phase lost' if not o[0] else 'set'}")
+    if not o[0] or o[1] != u[1]:
+        return ctx.fail(what, case, key=f"already-phased-{enc}-altered" if nops else "already-phased-altered")
+    if o[2] != u[2]:
+        return ctx.fail(what, case, key=f"already-phased-{enc}-set-invented" if nops else "already-phased-altered")
+    in_enc = "hp" if enc == "hp" else "gt"
+    if in_enc == out_enc and phase_text(ut) != phase_text(ot):
+        return ctx.fail(what + " (same phase, other text)", case, key="already-phased-text")
+    ctx.dist("already_phased_unaltered", 1)
 
 
 def fmt(call):
